@@ -785,6 +785,9 @@ def gen_c17(rng):
     if k < 0.95:
         return {"mode": "cgi", "backend": backend, "param": gen_text(rng), "content_type": rng.choice(["application/json-rpc", "application/json", "application/json; charset=utf-8"]),
                 "via": rng.choice(["stdin", "stdin", "text"])}
+    if rng.random() < 0.2:
+        # an unsupported scheme in a URL without the "//" authority marker
+        return {"mode": "scheme", "supplied_transport": False, "scheme": rng.choice(["mailto", "news", "gopher", "file", "urn"]), "opaque": True}
     return {"mode": "scheme", "supplied_transport": rng.random() < 0.4, "scheme": rng.choice(["ftp", "ws", "file", "", "unix+ftp", "unix+https", "gopher", "httpx", "unix+", "mailto", "svn+http", "git+https", "tcp+http",
                                                       "unix+unix+http", "x-unix+http", "http+unix", "+http", "unix+http+x"])}
 
@@ -1084,6 +1087,9 @@ class C17Run(object):
                 tr = self.jc.UnixTransport(config=cfg, path="/sim/peer") if sc.startswith("unix+") else self.jc.Transport(config=cfg)
                 self.jc.ServerProxy("%s://sim:80/x" % sc, transport=tr, config=cfg)
                 s.probe("unsupported_scheme_with_a_supplied_transport")
+            elif self.p.get("opaque"):
+                self.jc.ServerProxy("%s:x@sim:80/x" % sc)
+                s.probe("unsupported_scheme_without_authority_marker")
             else:
                 self.jc.ServerProxy("%s://sim:80/x" % sc)
             s.emit("scheme", sc, "accepted")
